@@ -20,7 +20,7 @@ WF = [('at-least-one-part', 'len(bounds) >= 2'), ('starts-at-0', 'bounds[0] == 0
 SLICE_REQ = WF + [
     ('unit-step', 'item.step is None or item.step == 1'),
     ('start-in-range', 'item.start is None or (-n <= item.start and item.start <= n)'),
-    ('stop-in-range', 'item.stop is None or (-n <= item.stop and item.stop <= n)'),
+    ('stop-in-range', 'item.stop is None or -n <= item.stop'),      # stops beyond the end are clipped like NumPy does (used by the waveform extractor)
     ('selects-at-least-one-row', 'S < E')]
 
 # from the statement: "returns exactly the rows NumPy would return on the concatenated array":
@@ -156,3 +156,19 @@ contract(T, 'BaseEphysReader.__getitem__', variant='tuple-int', props=['C01'],
         ('rows-so-far', 'implies(k == 1, flat(to_concat)[0] == self.rows[ite(old(item[0]) < 0, old(item[0]) + n, old(item[0]))])')]}},
     ensures=[('one-row', 'len(result) == 1'),
              ('that-row-then-deferred-ops-then-columns', "result[0] == op_row('cols', item[1], %s)" % (_FOLD_SELF % 'self.rows[ite(item[0] < 0, item[0] + n, item[0])]'))])
+
+# ---- attributes: "The reader's shape, sample count, channel count ... and duration are those of that concatenated array" --------------------
+AWF = RWF + [('chunk-bounds-end-at-sample-count', 'len(self.chunk_bounds) >= 1 and self.chunk_bounds[len(self.chunk_bounds) - 1] == self.part_bounds[len(self.part_bounds) - 1]'),
+             ('positive-rate', 'self.sample_rate > 0')]
+contract(T, 'BaseEphysReader.n_samples', is_property=True, props=['C01'], params={}, fields=FIELDS, requires=AWF, result='int',
+    ensures=[('rows-of-the-concatenation', 'result == len(self.rows)')])
+contract(T, 'BaseEphysReader.shape', is_property=True, props=['C01'], params={}, fields=FIELDS, requires=AWF, result='tuple[int,int]',
+    ensures=[('shape-of-the-concatenation', 'result[0] == len(self.rows) and result[1] == self.n_channels')])
+contract(T, 'BaseEphysReader.n_parts', is_property=True, props=['C01'], params={}, fields=FIELDS, requires=AWF, result='int',
+    ensures=[('number-of-files', 'result == len(self.part_bounds) - 1')])
+contract(T, 'BaseEphysReader.n_chunks', is_property=True, props=['C01'], params={}, fields=FIELDS, requires=AWF, result='int',
+    ensures=[('number-of-chunks', 'result == len(self.chunk_bounds) - 1')])
+contract(T, 'BaseEphysReader.duration', is_property=True, props=['C01'], params={}, fields=FIELDS, requires=AWF, result='real',
+    ensures=[('samples-over-rate', 'result == len(self.rows) / self.sample_rate')])
+contract(T, '_get_part_bounds', props=['C01'], params={'arrs': 'list[elem]'}, kind='assumed',
+    note='numpy cumsum over a list comprehension of shapes: bounded only')
